@@ -560,6 +560,9 @@ class Arr:
         r = self._bin(o, name)
         if r is NotImplemented:
             return r
+        if self.ndim == 0 and 'sel_of' not in self.tags and self.tags.get('alloc') is None:
+            # NumPy scalars (what arithmetic, reductions and element access return) are immutable: `s op= v` rebinds the name to a new value
+            return r
         if not all(sz_eq(a, b) for a, b in zip(r.shape, self.shape)) or len(r.shape) != len(self.shape):
             raise value_error(f'non-broadcastable output operand with shape {self.shape} does not match the broadcast shape {r.shape}')
         if r.dt == 'complex' and self.dt != 'complex':
@@ -578,6 +581,9 @@ class Arr:
             # whole-array accumulation  a += v  on an array allocated by np.zeros / np.ones: a store covering every position
             rec = {'sel': tuple(('all',) for _ in self.shape), 'value': o, 'where': CTX.interp.where() if CTX.interp else '', 'node': CTX.interp.cur_node() if CTX.interp else None, 'mode': name}
             self.tags.setdefault('stores', []).append(rec)
+        elif 'sel_of' not in self.tags:
+            # whole-array in-place operation on a computed array: its content is the previous content combined with the operand (see content.entry)
+            self.tags.setdefault('inplace_ops', []).append((name, o, len(self.buf.writes)))
         CTX.event('inplace-op', target=self, op=name, value=o)
         if name in ('mul', 'truediv') and isinstance(o, (int, float, complex)) and not isinstance(o, bool) and 'sel_of' not in self.tags:
             # x *= c : the array now holds c times its previous value; keep that value as a snapshot so that scalar factors stay traceable
